@@ -44,7 +44,7 @@ import (
 	"pgregory.net/rapid"
 )
 
-var bootstrapN = vkit.N{Quick: 240, Thorough: 6000}
+var bootstrapN = vkit.N{Quick: 400, Thorough: 16000}
 
 // ---------------------------------------------------------------- case data
 
@@ -242,6 +242,7 @@ var (
 	liveMu       sync.Mutex
 	liveCur      *liveFix
 	liveFailures int
+	liveDirs     []string
 )
 
 const (
@@ -309,6 +310,7 @@ func startLive() (f *liveFix, err error) {
 	for _, ts := range cl.GetServers() {
 		svr := ts.GetServer()
 		f.svr = svr
+		liveDirs = append(liveDirs, svr.GetConfig().DataDir)
 		// install the interception before any server loop uses the client
 		svr.AddStartCallback(func() {
 			c := svr.GetClient()
@@ -383,6 +385,11 @@ func shutdownLive() {
 		stopLive(liveCur)
 		liveCur = nil
 	}
+	// data directories of every server this process ever started (also of start-ups that failed half-way)
+	for _, d := range liveDirs {
+		os.RemoveAll(d)
+	}
+	liveDirs = nil
 }
 
 func (f *liveFix) dropStorage() {
@@ -506,7 +513,9 @@ func (o outcome) String() string {
 	}
 }
 
-func (o outcome) refused() bool { return o.panic == "" && !o.ok && o.otherHd == "" && (o.already || o.err != "") }
+func (o outcome) refused() bool {
+	return o.panic == "" && !o.ok && o.otherHd == "" && (o.already || o.err != "")
+}
 
 func callBootstrap(svr *server.Server, in *inst) (o outcome) {
 	defer func() {
@@ -545,8 +554,8 @@ type bootRun struct {
 	commits []string // store keys of bootstrap txns that etcd reported as succeeded
 }
 
-// classify checks one outcome of a request that was sent while `bootstrapped` (known for
-// sequential requests only; -1 = unknown/racing).
+// classify checks what holds for the outcome of a request whenever it is sent: a wrong cluster
+// id is refused as such, a malformed payload is refused, anything else succeeds or is refused.
 func (b *bootRun) classify(in *inst, o outcome, stage string) error {
 	if o.panic != "" {
 		return fmt.Errorf("%s: %s panicked: %s", stage, in.name, o.panic)
@@ -838,12 +847,18 @@ func runBootOn(f *liveFix, c BootCase) (vkit.Info, error) {
 		s := gate.New()
 		s.Watchdog = 30 * time.Second
 		sc.Store(s)
+		var wg sync.WaitGroup
 		for i := range race {
 			i := i
-			s.Go(i+1, func() { outs[i] = callBootstrap(svr, race[i]) })
+			wg.Add(1)
+			s.Go(i+1, func() {
+				defer wg.Done()
+				outs[i] = callBootstrap(svr, race[i])
+			})
 		}
 		ok := s.Run(c.Sched, nil)
 		s.Disable()
+		wg.Wait() // never leave a request running into the next case
 		sc.Store((*gate.Sched)(nil))
 		if !ok {
 			return info, errInconclusive
